@@ -1,5 +1,5 @@
 SPECIFICATION Spec
-CONSTANTS PairSrc = "all" CtxU = "few" MaxFlow = 3 KeyU = "six"
+CONSTANTS PairSrc = "all" CtxU = "tiny" MaxFlow = 3 KeyU = "six"
 INVARIANT IsPartition
 INVARIANT PartitionExact
 INVARIANT OrderPreserved
